@@ -97,7 +97,10 @@ TRUSTED = [
     "the accessors on the netloc normalize_url assembled, and safe_urlsplit(host).hostname, are hand models of CPython 3.12.1 "
     "(pyNetlocAcc, pyWalkHost) for which AccLaws / WalkLaws are proved; _checknetloc (NFKC of a non-ASCII netloc) is not modelled",
     "attempt_to_decode_idna is a parameter (puny), arbitrary in every theorem; the platform_aware branch is an abstract string "
-    "rewriting before parsing (theorems on Parsed hold after it; the commutation of T with it is checked by the oracle only)",
+    "rewriting before parsing in the old lines (fp_parts, fingerprint_whole: the harness ships the rewritten components / the table of the branch); the line "
+    "`fingerprint_whole_pa` (every platform_aware=True case + facebook / youtube url shapes of the C19 generators) ships NOTHING about it: the branch is the concrete "
+    "Platform.platformConcrete (Model/Platform.lean, the C19 models of ural/facebook.py / ural/youtube.py), compared with the real fingerprint_url(u, platform_aware=True); "
+    "cases outside the component models' stated domains are counted (pa:outside-model:*) and withheld",
     "str.lower / str.upper beyond ASCII are the identity in the model (generators avoid the other characters for the model lines; "
     "the oracle runs on everything)",
 ]
@@ -114,8 +117,9 @@ UNPROVED = (
     "Props/C06Whole.lean states case (every string), port, language label (partial, same side conditions), gl/hl and the shape "
     "clause on STRINGS for the whole-string model fingerprintUrlString with the modelled parser, for every u such that the "
     "cleaned, resolved form of u.lower() is in the grammar class NormBridge.UrlG.wf (host name or bracketed IP literal); the "
-    "suffix swap stays component-level. That the modelled parser is CPython's is compared on every run, not proved; under platform_aware=True the commutation of T with "
-    "the facebook/youtube rewriting is explored by the oracle, not proved (KF-C06-4: it reads the string before unescaping). Escaped capitals: since e39f899 normalize_url(lowercase="
+    "suffix swap stays component-level. That the modelled parser is CPython's is compared on every run, not proved; under platform_aware=True: letter case is irrelevant for every string (fp_case_string_pa: the url is lower-cased before the branch sees it); off facebook / youtube hosts the "
+    "port / language-label / gl-hl / shape theorems hold with the option on (Props/C05Platform.lean, listed under C05: Ural.Props.C06.fp_*_string_pa, hypothesis NotPlatform); on platform urls the commutation of T with "
+    "the facebook/youtube rewriting is false by design (KF-C06-4 = D53: it reads the string before unescaping; d53_escaped_path_letter, fullPlatformInvariance_false are theorems about the concrete branch). Escaped capitals: since e39f899 normalize_url(lowercase="
     "True) folds the case right after unescaping; the equation fp('/%41') = fp('/a') is covered by the oracle (C04 family) and by "
     "fp_lower_closed (result closed under lower), not by a general theorem."
 )
